@@ -20,13 +20,32 @@ TIMEOUT_S = 30.0
 FNAMES = ['a', 'a_', 'a__', 'b', 'x']        # field names: prefixes / '_'-suffixed variants of one another
 RNAMES = ['a', 'a_', 'a__', 'b', 'b_']       # rename alphabet of generator (A2): two families of '_' variants
 DNAMES = ['d', 'd_', 'e']                    # dataframe names
+# (N) names RELATIVE to names the implementation reserves or uses internally.  RESERVED is the only top-level group name
+# the recorded tree reserves (HDF5Dataset.__init__ does not load it: a frame of that name is live but is not found again
+# by a reopen - by design, so the name itself is outside the property's domain and never generated as a frame name).
+# INTERNAL are the names ExeTera gives to the HDF5 objects / attributes INSIDE a field group.
+RESERVED = 'trash'
+INTERNAL = ['values', 'index', 'key_names', 'key_values', 'fieldtype']
+# string literals the recorded tree compares names with (Compare / str-method contexts of dataset.py, dataframe.py,
+# session.py, see _scan_literals); a literal of the tree under test that is not listed here is NEW (change-directed
+# escalation for names, the analogue of hot.hot_sizes() for sizes) and gets the full set of relatives
+KNOWN_LITERALS = ['trash', '_a_map', '_left_map', '_right_map', 'all', 'inner', 'iu', 'left', 'right', 'stable', 'terminal',
+                  'S1', 'dest', 'field', 'fields', 'fieldtype']
 TYPES = {0: 'numeric,int32', 1: 'indexedstring', 2: 'fixedstring,4', 3: 'categorical,int8', 4: 'timestamp'}
 TAGS = {'create': 1, 'setitem': 2, 'add': 3, 'delitem': 4, 'drop': 5, 'delete_field': 6, 'rename': 7, 'fcopy': 8,
         'fmove': 9, 'create_df': 10, 'create_df_from': 11, 'require_df': 12, 'ds_copy': 13, 'ds_move': 14,
         'ds_setitem': 15, 'ds_delitem': 16, 'ds_drop': 17, 'ds_delete_df': 18}
 EXC_CODE = {'ValueError': 1, 'TypeError': 2, 'IndexError': 3, 'KeyError': 4, 'OverflowError': 5}
 
-RULE = ('exhaustive small scope on real (in-memory) HDF5 files: (A) every rename mapping (each column kept or sent to one '
+RULE = ('exhaustive small scope on real (in-memory) HDF5 files: (N) names relative to reserved / internal names: every '
+        'dataframe name that is a substring, superstring, case variant or same-length variant of the reserved group name '
+        '"trash" (23 names), the names used inside a field group (values, index, key_names, key_values, fieldtype) and their '
+        'prefixes / suffixes / extensions, and every string literal the tree under test compares names with (a literal that is '
+        'new in the tree gets all its relatives) x 7 dataset-level history shapes (create, ds[n] = df, copy, move across files, '
+        'create_dataframe(dataframe=), require_dataframe, delete), all ordered pairs of "trash"-relatives in one file, the '
+        'internal names as field names x 5 field types (rename / copy / move), random multi-frame histories with every prefix; '
+        'EVERY history of every generator ends with close + reopen in a fresh Session whose names, types and data are compared '
+        'with the live catalogue; (A) every rename mapping (each column kept or sent to one '
         'of {a,a_,a__,b,x}, plus unknown keys) on column sets of size 2..4 drawn from {a,a_,a__,b} in several orders; '
         '(A2) creation order x mapping: every ordered choice of 3 columns from {a,a_,a__,b,b_} (60 creation orders) x every '
         'mapping of all three onto distinct names of that alphabet (60: permutations, cycles, chains, identities), dict order '
@@ -50,7 +69,9 @@ TRUSTED = ['h5py/HDF5 link semantics as modelled in Catalogue.v (create_group / 
            'field payload I/O (data.write / data[:]) is the identity on the small integer payloads used']
 ASSUMPTIONS = ['one Session, each file opened once; operations address frames by ds[name] or by the first handle obtained for '
                'a frame that is still served (handles of dropped frames are not operated on) and fields by name; names do not '
-               'contain "/" and are not "trash"',
+               'contain "/"; no DATAFRAME is named exactly "trash" (the one top-level group name HDF5Dataset.__init__ does not '
+               'load, by design: c15_loader_hides_reserved) - its substrings / superstrings are generated, and fields may be named '
+               '"trash"',
                'field handles observed are those ever present in a catalogue']
 TECHNIQUE = ('Coq proof (state-machine invariant over a Gallina model of the dual Python/HDF5 catalogue) + exhaustive '
              'short-history differential correspondence against the real code on real HDF5 files')
@@ -63,7 +84,9 @@ LEVEL_TEXT = ('Theorems in coq/Props/C15.v prove, for all histories (any length,
               'that a moved handle is invalid, that rename returns exactly when its keys are distinct columns and the resulting '
               'names are distinct - whatever the creation order of the columns (every permutation mapping is carried out) - and '
               'that no operation re-binds a dataframe name that stays bound to another object (require_dataframe and lookups '
-              'never change a binding and hand back the catalogued object, empty frames included); the model is tied to the code '
+              'never change a binding and hand back the catalogued object, empty frames included), and that a reopen through the '
+              'loader that skips the reserved group name finds every frame of any other name - names are arbitrary byte lists, so '
+              'substrings and superstrings of the reserved name included - with the live fields, types and data; the model is tied to the code '
               'by running both on the same generated '
               'histories on real HDF5 files and comparing every intermediate observation.')
 LEVEL_NOTE = ('Trusted: Coq kernel, extraction, harness, the h5py link semantics written into the model. The code as '
@@ -709,6 +732,21 @@ def features(case, model):
         types = set(h[4] for h in hs if h[0] == 2)
         if len(types) >= 2: f.add('several-field-types')
         prev = o
+    # names, relative to reserved / internal names, of what the final reopen has to find again
+    for fin in model.get('final', []):
+        for dn_, flds in fin[0]:
+            low = dn_.lower()
+            if dn_ != RESERVED and dn_ in RESERVED: f.add('names:reopened-frame-is-substring-of-reserved-name')
+            elif RESERVED in low or low == RESERVED: f.add('names:reopened-frame-is-superstring/case-variant-of-reserved-name')
+            if dn_ in INTERNAL: f.add('names:reopened-frame-has-internal-name')
+            elif any(dn_ in r or r in dn_ for r in INTERNAL if len(dn_) > 2): f.add('names:reopened-frame-relative-of-internal-name')
+            if dn_ in KNOWN_LITERALS and dn_ != RESERVED: f.add('names:reopened-frame-named-like-a-literal-of-the-code')
+            for fl in flds:
+                if fl[0] in INTERNAL: f.add('names:reopened-field-has-internal-name')
+                if fl[0] == RESERVED: f.add('names:reopened-field-has-reserved-name')
+                if fl[0] == dn_: f.add('names:reopened-field-named-like-its-frame')
+        names = [x[0] for x in fin[0]]
+        if any(a != b and a in b for a in names for b in names): f.add('names:reopened-frames-one-name-inside-another')
     return sorted(f)
 
 
@@ -722,6 +760,165 @@ def known(case, impl, model, spec, mode):
 
 
 # ----------------------------------------------------------------------------------------- generators
+def _relatives(r, full=True):
+    """names that are substrings / prefixes / suffixes / superstrings / same-length variants of r, never r itself"""
+    if full:
+        subs = set(r[i:j] for i in range(len(r)) for j in range(i + 1, len(r) + 1))
+    else:
+        subs = set([r[:k] for k in range(1, len(r))] + [r[k:] for k in range(1, len(r))] + [r[0], r[-1]])
+    sup = [r + '_', r + '2', 'x' + r, '_' + r, r + r, r[:-1] + ('x' if r[-1] != 'x' else 'y'), r.upper(), r.capitalize(),
+           r[::-1]]
+    out = sorted(subs, key=lambda x: (len(x), x)) + sup
+    res = []
+    for n in out:
+        if n and n != r and n not in res and '/' not in n and n != RESERVED:
+            res.append(n)
+    return res
+
+
+_IDENT = None
+_lits = None
+
+
+def _scan_literals():
+    """identifier-like string literals the tree under test compares something with (operands of ==, !=, in, not in;
+    arguments of startswith / endswith / find / ...; module-level string / tuple-of-string constants) in the modules that
+    load and catalogue dataframes and fields.  Directs the name alphabet only; decides nothing."""
+    global _lits, _IDENT
+    if _lits is not None:
+        return _lits
+    import ast, re, warnings
+    _IDENT = re.compile(r'^[A-Za-z_][A-Za-z0-9_]{0,11}$')
+    repo = os.environ.get('VERIF_REPO', '/repo')
+    found = []
+
+    def strs(node):
+        for c in ast.walk(node):
+            if isinstance(c, ast.Constant) and isinstance(c.value, str) and _IDENT.match(c.value) and c.value not in found:
+                found.append(c.value)
+    for fn in ('dataset.py', 'dataframe.py', 'session.py'):
+        try:
+            with warnings.catch_warnings():
+                warnings.simplefilter('ignore')
+                tree = ast.parse(open(os.path.join(repo, 'exetera', 'core', fn)).read())
+        except Exception:  # noqa
+            continue
+        for st in tree.body:
+            if isinstance(st, (ast.Assign, ast.AnnAssign)) and st.value is not None and \
+                    isinstance(st.value, (ast.Constant, ast.Tuple, ast.List, ast.Set)):
+                strs(st.value)
+        for n in ast.walk(tree):
+            if isinstance(n, ast.Compare):
+                strs(n)
+            elif isinstance(n, ast.Call) and isinstance(n.func, ast.Attribute) and n.func.attr in (
+                    'startswith', 'endswith', 'find', 'rfind', 'index', 'count', 'replace', 'split', 'rsplit', 'strip',
+                    'lstrip', 'rstrip', 'partition', 'rpartition', 'removeprefix', 'removesuffix'):
+                strs(n)
+    _lits = found
+    return found
+
+
+def _name_alphabets():
+    """(frame names relative to RESERVED, all frame names of generator (N), field names of generator (N))"""
+    lits = _scan_literals()
+    new = [x for x in lits if x not in KNOWN_LITERALS]
+    core = _relatives(RESERVED)
+    dn = list(core)
+    fn = list(INTERNAL) + [RESERVED]
+    for r in INTERNAL:
+        for n in (r[:-1], r + '_', 'x' + r, r[1:]):
+            dn.append(n); fn.append(n)
+        dn.append(r)
+    for r in new[:6]:                                  # a name somebody introduced: all its relatives, and itself
+        for n in [r] + _relatives(r, len(r) <= 6):
+            dn.append(n); fn.append(n)
+    for r in lits[:24]:                                # the names the code compares with, themselves
+        dn.append(r); fn.append(r)
+    fn += ['t', 'tr', 'sh', 'ash', 'tras', 'trash_', 'xtrash', 'attrs', 'name']
+    fn = [n for n in fn if n not in ('d', 'e')]        # the fixed frame names of the field-name histories
+
+    def uniq(l):
+        o = []
+        for n in l:
+            if n and '/' not in n and n not in o:
+                o.append(n)
+        return o
+    return core, [n for n in uniq(dn) if n != RESERVED], uniq(fn)
+
+
+def _gen_names(tier, rng, changed):
+    """(N) dependence on NAMES.  Every history ends with close + fresh reopen (run()), so each of these compares the
+    names, types and data a fresh Session finds with the live catalogue for frames / fields whose names are substrings,
+    prefixes, suffixes, superstrings or case variants of a reserved / internal name."""
+    big = tier == 'thorough'
+    core, dn, fn = _name_alphabets()
+    dfr = _mk_frame(0, 'd', ['a', 'b'])
+    k = 0
+    for n in dn:
+        m = core[k % len(core)]
+        if m == n:
+            m = core[(k + 1) % len(core)]
+        t = k % 5
+        hs = [
+            # a frame of that name, a field named like the frame, a field named like the reserved name
+            ([], [['create_df', 0, n], ['create', 0, n, 'a', t, [1, 2]], ['create', 0, n, n, (t + 1) % 5, [3]],
+                  ['create', 0, n, RESERVED, (t + 2) % 5, [4, 5]]]),
+            # rename a frame to that name through ds[n] = ds['d']; the old name is used again
+            (dfr, [['ds_setitem', 0, n, 0, 'd'], ['create_df', 0, 'd'], ['create', 0, 'd', 'x', t, [6]]]),
+            # copy to that name, delete the source
+            (dfr, [['ds_copy', 0, 'd', 0, n, 'fn'], ['ds_delitem', 0, 'd']]),
+            # rename that name away to a relative of the reserved name, create it again
+            ([], [['create_df', 0, n], ['create', 0, n, 'a', t, [7, 8]], ['ds_setitem', 0, m, 0, n], ['create_df', 0, n],
+                  ['create', 0, n, 'b', (t + 3) % 5, [9]]]),
+            # move into the other file under that name, look it up there
+            (dfr, [['ds_move', 0, 'd', 1, n], ['require_df', 1, n], ['create', 1, n, 'x', t, [10]]]),
+            # duplicate from a frame, copy across files under the same name, delete_dataframe
+            (dfr, [['create_df_from', 0, n, 0, 'd'], ['ds_copy', 0, n, 1, n, 'method'], ['ds_delete_df', 0, n],
+                   ['require_df', 0, m]]),
+            # require_dataframe creates it; fields arrive by move / copy / rename under internal names
+            (dfr, [['require_df', 0, n], ['fmove', 0, 'd', 'a', 0, n, 'values'], ['fcopy', 0, 'd', 'b', 0, n, 'index'],
+                   ['rename', 0, n, [['values', 'index'], ['index', 'values']], 'dict']]),
+        ]
+        for j, (init, ops) in enumerate(hs):
+            yield {'init': init, 'ops': ops, 'via': ('name', 'alt', 'handle')[(k + j) % 3]}
+        k += 1
+    # all ordered pairs of relatives of the reserved name in one file (one is a substring / superstring of the other)
+    for n1 in core:
+        for n2 in core:
+            yield {'init': _mk_frame(0, n1, ['a']),
+                   'ops': [['create_df', 0, n2], ['create', 0, n2, 'b', 1, [2, 3]], ['ds_delitem', 0, n1]]}
+    # field names: every internal / reserved-relative name x every field type; renamed, copied, moved across files
+    for i, f in enumerate(fn):
+        g = fn[(i + 1) % len(fn)]
+        fr = f if f != RESERVED else RESERVED[:2]      # a second frame, named like the field where that is allowed
+        for t in range(5):
+            init = [['create_df', 0, 'd'], ['create', 0, 'd', f, t, [11 + t, t]], ['create_df', 0, fr],
+                    ['create', 0, fr, f, (t + 1) % 5, [5]]]
+            yield {'init': init, 'ops': [['rename', 0, 'd', [[f, g]], 'single'], ['fcopy', 0, 'd', g, 0, fr, g]]}
+            if t in (1, 3) or big or changed:
+                yield {'init': init, 'ops': [['fmove', 0, 'd', f, 1, fr, g], ['create', 0, 'd', g, t, [1]]]}
+                yield {'init': init, 'ops': [['ds_copy', 0, 'd', 1, fr, 'fn'], ['delitem', 0, 'd', f], ['ds_drop', 0, fr]]}
+    # several such frames in one file, then dataset-level edits among them (every prefix is a history of its own: each
+    # is reopened)
+    for _ in range(4000 if big else (900 if changed else 300)):
+        names = rng.sample(dn, rng.randint(2, 5))
+        init = []
+        for q, n in enumerate(names[:-1]):
+            init += _mk_frame(0, n, rng.sample(fn, rng.randint(0, 2)), q)
+        ops = []
+        for _q in range(rng.randint(1, 4)):
+            a, b = rng.choice(names), rng.choice(names + [rng.choice(dn)])
+            r = rng.random()
+            if r < 0.3: ops.append(['ds_setitem', 0, b, 0, a])
+            elif r < 0.5: ops.append(['ds_copy', 0, a, rng.choice([0, 0, 1]), b, rng.choice(['fn', 'method'])])
+            elif r < 0.65: ops.append([rng.choice(['ds_delitem', 'ds_drop', 'ds_delete_df']), 0, a])
+            elif r < 0.8: ops.append(['ds_move', 0, a, rng.choice([0, 1]), b])
+            elif r < 0.9: ops.append([rng.choice(['create_df', 'require_df']), 0, b])
+            else: ops.append(['create', 0, a, rng.choice(fn), rng.randint(0, 4), [rng.randint(0, 99)]])
+        for cut in range(1, len(ops) + 1):
+            yield {'init': init, 'ops': ops[:cut], 'via': rng.choice(['name', 'alt'])}
+
+
 def _ty(n, i=0):
     return (FNAMES.index(n) + i) % 5 if n in FNAMES else 0
 
@@ -802,6 +999,9 @@ def _gen(tier, rng):
     # the preambles are histories of their own
     yield {'ops': INIT1}
     yield {'ops': INIT2}
+    from harness import hot
+    for c in _gen_names(tier, rng, hot.changed()):
+        yield c
     # (A) rename mappings, exhaustively
     colsets = [['a', 'b'], ['b', 'a'], ['a', 'a_', 'b'], ['b', 'a_', 'a'], ['a_', 'a', 'a__'], ['a', 'a_', 'a__', 'b']]
     sampled = [['b', 'a__', 'a', 'a_']]
